@@ -24,37 +24,37 @@ OpBase == 4644  \* 0x1224
 
 Ops == <<
   [name |-> "OPEN_FILE", kind |-> "Open", code |-> OpBase + 0,  tail |-> << <<"len", 0, 2>> >>, follow |-> "path",
-   resp |-> << <<"size", 8, TRUE>>, <<"mtime", 8, FALSE>> >>, var |-> "none"],
+   resp |-> << <<"size", 8, TRUE>>, <<"mtime", 8, FALSE>> >>, var |-> "none", block |-> 0],
   [name |-> "READ_FILE_CRITICAL", kind |-> "Raw", code |-> OpBase + 1,  tail |-> << <<"limit", 2, 4>>, <<"off", 6, 8>> >>, follow |-> "none",
-   resp |-> << >>, var |-> "raw"],
+   resp |-> << >>, var |-> "raw", block |-> 0],
   [name |-> "READ_CD_2048", kind |-> "Raw", code |-> OpBase + 2,  tail |-> << <<"start", 2, 4>>, <<"count", 6, 4>> >>, follow |-> "none",
-   resp |-> << >>, var |-> "raw"],
+   resp |-> << >>, var |-> "raw", block |-> 2048],
   [name |-> "READ_FILE", kind |-> "Read", code |-> OpBase + 3,  tail |-> << <<"limit", 2, 4>>, <<"off", 6, 8>> >>, follow |-> "none",
-   resp |-> << <<"n", 4, TRUE>> >>, var |-> "data"],
+   resp |-> << <<"n", 4, TRUE>> >>, var |-> "data", block |-> 0],
   [name |-> "CREATE_FILE", kind |-> "Res4", code |-> OpBase + 4,  tail |-> << <<"len", 0, 2>> >>, follow |-> "path",
-   resp |-> << <<"v", 4, TRUE>> >>, var |-> "none"],
+   resp |-> << <<"v", 4, TRUE>> >>, var |-> "none", block |-> 0],
   [name |-> "WRITE_FILE", kind |-> "Res4", code |-> OpBase + 5,  tail |-> << <<"len", 2, 4>> >>, follow |-> "payload",
-   resp |-> << <<"v", 4, TRUE>> >>, var |-> "none"],
+   resp |-> << <<"v", 4, TRUE>> >>, var |-> "none", block |-> 0],
   [name |-> "OPEN_DIR", kind |-> "Res4", code |-> OpBase + 6,  tail |-> << <<"len", 0, 2>> >>, follow |-> "path",
-   resp |-> << <<"v", 4, TRUE>> >>, var |-> "none"],
+   resp |-> << <<"v", 4, TRUE>> >>, var |-> "none", block |-> 0],
   [name |-> "READ_DIR_ENTRY", kind |-> "Entry", code |-> OpBase + 7,  tail |-> << >>, follow |-> "none",
-   resp |-> << <<"size", 8, TRUE>>, <<"namelen", 2, FALSE>>, <<"isdir", 1, FALSE>> >>, var |-> "name"],
+   resp |-> << <<"size", 8, TRUE>>, <<"namelen", 2, FALSE>>, <<"isdir", 1, FALSE>> >>, var |-> "name", block |-> 0],
   [name |-> "DELETE_FILE", kind |-> "Res4", code |-> OpBase + 8,  tail |-> << <<"len", 0, 2>> >>, follow |-> "path",
-   resp |-> << <<"v", 4, TRUE>> >>, var |-> "none"],
+   resp |-> << <<"v", 4, TRUE>> >>, var |-> "none", block |-> 0],
   [name |-> "MKDIR", kind |-> "Res4", code |-> OpBase + 9,  tail |-> << <<"len", 0, 2>> >>, follow |-> "path",
-   resp |-> << <<"v", 4, TRUE>> >>, var |-> "none"],
+   resp |-> << <<"v", 4, TRUE>> >>, var |-> "none", block |-> 0],
   [name |-> "RMDIR", kind |-> "Res4", code |-> OpBase + 10, tail |-> << <<"len", 0, 2>> >>, follow |-> "path",
-   resp |-> << <<"v", 4, TRUE>> >>, var |-> "none"],
+   resp |-> << <<"v", 4, TRUE>> >>, var |-> "none", block |-> 0],
   [name |-> "READ_DIR_ENTRY_V2", kind |-> "EntryV2", code |-> OpBase + 11, tail |-> << >>, follow |-> "none",
    resp |-> << <<"size", 8, TRUE>>, <<"mtime", 8, FALSE>>, <<"ctime", 8, FALSE>>, <<"atime", 8, FALSE>>,
-               <<"namelen", 2, FALSE>>, <<"isdir", 1, FALSE>> >>, var |-> "name"],
+               <<"namelen", 2, FALSE>>, <<"isdir", 1, FALSE>> >>, var |-> "name", block |-> 0],
   [name |-> "STAT_FILE", kind |-> "Stat", code |-> OpBase + 12, tail |-> << <<"len", 0, 2>> >>, follow |-> "path",
    resp |-> << <<"size", 8, TRUE>>, <<"mtime", 8, FALSE>>, <<"ctime", 8, FALSE>>, <<"atime", 8, FALSE>>,
-               <<"isdir", 1, FALSE>> >>, var |-> "none"],
+               <<"isdir", 1, FALSE>> >>, var |-> "none", block |-> 0],
   [name |-> "GET_DIR_SIZE", kind |-> "Res8", code |-> OpBase + 13, tail |-> << <<"len", 0, 2>> >>, follow |-> "path",
-   resp |-> << <<"size", 8, TRUE>> >>, var |-> "none"],
+   resp |-> << <<"size", 8, TRUE>> >>, var |-> "none", block |-> 0],
   [name |-> "READ_DIR", kind |-> "ReadDir", code |-> OpBase + 14, tail |-> << >>, follow |-> "none",
-   resp |-> << <<"count", 8, TRUE>> >>, var |-> "entries"]
+   resp |-> << <<"count", 8, TRUE>> >>, var |-> "entries", block |-> 0]
 >>
 
 DirEntryLayout == << <<"size", 8, TRUE>>, <<"mtime", 8, FALSE>>, <<"isdir", 1, FALSE>>, <<"name", 512, FALSE>> >>
